@@ -109,8 +109,11 @@ def cases(rng, tier):
                 ops.append(["redeem", rng.choice(["c_rs", "c_es", "same", "same", "same"]), rng.randrange(npush) if rng.random() < 0.9 else 99])
                 if rng.random() < 0.3:
                     ops.append(list(ops[-1]))          # immediate replay
-            else:
+            elif r < 0.9:
                 ops.append(["tick", rng.choice([1, 59, 61, 4000, 100000])])
+            else:
+                # two live provider instances sharing state by export / import: the work moves to the other one
+                ops.append(["switch"])
         out.append({"t": "par", "ops": ops})
     return out
 
@@ -118,6 +121,9 @@ def cases(rng, tier):
 def corpus():
     # several outstanding pushed requests: redeem an older one, replay it, then the newer one; by the owner and by another client; after the lifetime
     return [
+        # pushed at one instance, redeemed at the other, replayed at the first (state exported / imported in between, each time into a LIVE instance)
+        {"t": "par", "ops": [["push", "c_rs"], ["switch"], ["redeem", "same", 0], ["switch"], ["redeem", "same", 0], ["switch"], ["redeem", "same", 0]]},
+        {"t": "par", "ops": [["push", "c_rs"], ["push", "c_es"], ["switch"], ["redeem", "same", 1], ["redeem", "same", 0], ["switch"], ["redeem", "same", 0], ["redeem", "same", 1], ["push", "c_es"], ["switch"], ["redeem", "same", 2], ["switch"], ["redeem", "same", 2]]},
         {"t": "par", "ops": [["push", "c_rs"], ["push", "c_rs"], ["redeem", "same", 0], ["redeem", "same", 0], ["redeem", "same", 1], ["redeem", "same", 1]]},
         {"t": "par", "ops": [["push", "c_rs"], ["push", "c_es"], ["push", "c_rs"], ["redeem", "same", 1], ["redeem", "same", 1], ["redeem", "same", 0], ["redeem", "same", 2], ["redeem", "same", 0]]},
         {"t": "par", "ops": [["push", "c_rs"], ["push", "c_es"], ["redeem", "c_es", 0], ["redeem", "c_rs", 0], ["redeem", "c_es", 1]]},
@@ -215,8 +221,12 @@ def impl(c):
             return dict(o, r="refused", how="redeem-error")
         return dict(o, r="inner" if str(pr.get("state", "")).startswith("inner") else "outer", **{"as": pr.get("client_id")})
     # PAR history
-    par = E.s.get_endpoint("pushed_authorization")
-    E.s.context.par_db.clear()
+    workers = [E.s, env("oidc-b").s] if any(op[0] == "switch" for op in c["ops"]) else [E.s]
+    cur = 0
+    for w in workers:
+        w.context.par_db.clear()
+    par = workers[cur].get_endpoint("pushed_authorization")
+    az = workers[cur].get_endpoint("authorization")
     clock.CLOCK.t = T0
     urns, steps, pushed_at, pushed_by = [], [], {}, {}
     for op in c["ops"]:
@@ -245,6 +255,13 @@ def impl(c):
                     steps.append(["proceeds", pr.get("client_id"), pr.get("state"), clock.CLOCK.t - pushed_at.get(idx, clock.CLOCK.t), cid])
             except Exception as e:
                 steps.append(["refused", type(e).__name__])
+        elif op[0] == "switch":
+            store = workers[cur].context.dump()
+            cur = 1 - cur
+            workers[cur].context.load(store)
+            par = workers[cur].get_endpoint("pushed_authorization")
+            az = workers[cur].get_endpoint("authorization")
+            steps.append(["ok"])
         else:
             clock.CLOCK.t += op[1]
             steps.append(["ok"])
@@ -271,6 +288,8 @@ def model_lines(c, obs):
         elif op[0] == "redeem":
             cid = op[1] if op[1] != "same" else (by[op[2]] if op[2] < len(by) else "c_rs")
             lines.append(f"jar\tpar\tredeem\t{enc_str(cid)}\t{op[2]}")
+        elif op[0] == "switch":
+            lines.append("jar\tpar\ttick\t0")          # one logical provider: nothing happens to the state
         else:
             lines.append(f"jar\tpar\ttick\t{op[1]}")
     return lines
